@@ -63,6 +63,22 @@ def slice_entries(ctx):
         spec = c05.build_spec(h)
         out.append({"tag": "C05:" + "+".join(e for e, _ in h), "yaml": B.to_yaml(spec), "mode": "plain", "spec": spec,
                     "extents": dict(c05.EXTENTS), "sizes": None})
+    # several independent partitionings of ONE tensor (their relative order is a set order)
+    from mc.spec.build import E, T, times
+    d4 = {"A": ["M", "N", "P", "Q"], "B": ["M", "N", "P", "Q"], "Z": ["M", "N", "P", "Q"]}
+    e4 = E("Z", ["m", "n", "p", "q"], times(T("A", "m", "n", "p", "q"), T("B", "m", "n", "p", "q")))
+    for part, ext in (({"(M, P)": ["flatten()"], "(N, Q)": ["flatten()"]}, {"M": 2, "N": 1, "P": 2, "Q": 1}),
+                      ({"(M, N)": ["flatten()"], "(P, Q)": ["flatten()"]}, {"M": 1, "N": 2, "P": 2, "Q": 1}),
+                      ({"M": ["uniform_shape(2)"], "(P, Q)": ["flatten()"]}, {"M": 3, "N": 1, "P": 2, "Q": 1}),
+                      ({"M": ["uniform_shape(2)"], "N": ["uniform_shape(1)"], "(P, Q)": ["flatten()"]}, {"M": 2, "N": 2, "P": 1, "Q": 1})):
+        spec = {"decl": d4, "exprs": [e4], "mapping": {"partitioning": {"Z": part}}}
+        out.append({"tag": "EW4:" + "+".join(part), "yaml": B.to_yaml(spec), "mode": "plain", "spec": spec, "extents": ext, "sizes": None})
+    d3 = {"A": ["K", "M", "N"], "B": ["K", "M", "N"], "Z": ["K", "M", "N"]}
+    e3 = E("Z", ["k", "m", "n"], times(T("A", "k", "m", "n"), T("B", "k", "m", "n")))
+    for part, ext in (({"K": ["uniform_shape(2)"], "(M, N)": ["flatten()"]}, {"K": 3, "M": 1, "N": 2}),
+                      ({"K": ["uniform_shape(2)"], "M": ["uniform_shape(1)"], "N": ["nway_shape(2)"]}, {"K": 2, "M": 2, "N": 2})):
+        spec = {"decl": d3, "exprs": [e3], "mapping": {"partitioning": {"Z": part}}}
+        out.append({"tag": "EW3:" + "+".join(part), "yaml": B.to_yaml(spec), "mode": "plain", "spec": spec, "extents": ext, "sizes": None})
     for fname, y in corpus.yaml_files():
         if fname in ("extensor.yaml", "gamma.yaml", "sigma.yaml", "outerspace.yaml", "test_input.yaml", "extensor-energy.yaml"):
             mode = "metrics" if ("architecture" in y and "bindings" in y) else "plain"
@@ -90,11 +106,12 @@ def run_item(item):
     entry = _SLICE[i]
     ch = Chooser(prefix)
     vset.reset("choose", ch)
-    res = {"text": None, "rejected": None}
+    res = {"text": None, "rejected": None, "sites": []}
     try:
         h, text = corpus.compile_entry(entry)
         ch.finish()
         res["text"] = text
+        res["sites"] = sorted(set(ch.labels))
     except HarnessError:
         raise
     except Exception as e:
@@ -170,7 +187,10 @@ def run(ctx):
     texts = [dict() for _ in sl]      # text -> first prefix
     schedules = 0
     per_spec = []
+    sites = set()
     for i, (e, inf) in enumerate(zip(sl, infos)):
+        for _, r in inf["executions"]:
+            sites.update(r.get("sites", ()))
         rej = [(p, r["rejected"]) for p, r in inf["executions"] if r["rejected"]]
         acc = [(p, r["text"]) for p, r in inf["executions"] if r["text"] is not None]
         schedules += inf["runs"]
@@ -228,7 +248,7 @@ def run(ctx):
     cov = {"states": ntexts, "transitions": schedules + real_texts, "traces_validated_against_impl": len(replay_work) - len(incomplete),
            "specifications": len(sl), "schedules_explored": schedules, "max_deviations": max_dev, "budget_per_specification": budget,
            "real_hash_seeds": seeds, "real_seed_compilations": real_texts, "distinct_texts_judged": ntexts,
-           "executions_on_reference_model": execs, "instrumented_set_iteration_sites_hit": len(vset.Ctl.sites),
+           "executions_on_reference_model": execs, "set_iteration_sites_with_choices": sorted(s.rsplit(":", 1)[0] for s in sites),
            "specifications_enumerated_completely": sum(1 for inf in infos if inf["exhaustive"]), "exhaustive": False,
            "explanation": "states = distinct emitted texts reached (per specification); transitions = compilations performed under a controlled or "
                           "real order; traces_validated_against_impl = real-seed order vectors whose replay under the controlled scheduler "
